@@ -181,12 +181,18 @@ def h_ens2prob(ctx):
     pit = ctx.choose_bool("-p", free=True)
     ai = base_input(seed, nmem=nmem, nl=2)
     # members around the thresholds: values in {0,1,2,5}-ish so that equality with a threshold occurs
-    menu = [0.0, 1.0, 2.0, 5.0, 0.5, 3.0]
+    # ... plus decimals that are not representable in single precision (0.7 and 2.3 round downward, 4.6 upward)
+    menu = [0.0, 1.0, 2.0, 5.0, 0.5, 3.0, 0.7, 2.3, 4.6]
     for m in range(nmem):
         for n_, pos in enumerate(ai.positions()):
             ai.fields["e%d" % m][pos] = menu[(n_ * 5 + m * 3) % len(menu)]
     for n_, pos in enumerate(ai.positions()):
         ai.fields["obs"][pos] = menu[(n_ * 7 + 1) % len(menu)]
+        if n_ % 3 == 0:
+            # an observation exactly equal to a member (a tie is not "below")
+            ai.fields["obs"][pos] = ai.fields["e%d" % (n_ % nmem)][pos]
+            if ai.fields["obs"][pos] in (0.7, 2.3, 4.6):
+                ctx.flag("decimal-tie")
     dev_cells = [("obs", ai.positions()[1]), ("e0", ai.positions()[2]), ("fcst", ai.positions()[3])]
     for (f, pos) in dev_cells:
         if f in ai.fields and ctx.choose_bool("miss:%s:%r" % (f, pos)):
@@ -289,6 +295,8 @@ def h_expand(ctx):
     tod = ctx.choose("input-init-hour", (0, 6), free=True)
     locs = gen.std_locs(2, seed)
     times = [T0 + tod * 3600 + i * DAY for i in range(2)]
+    if ctx.choose("input-time-order", ("ascending", "descending"), free=True) == "descending":
+        times = times[::-1]           # a NetCDF file keeps this storage order (the text reader sorts)
     leads = [0.0, 6.0, 18.0, 24.0]
     ai = gen.AInput("in", times, leads, locs, variable="T", units="K")
     # observations are a function of the VALID time (inputs whose valid times collide agree)
@@ -335,7 +343,7 @@ def h_expand(ctx):
                     ok = any(close32(c, g) for c in cands)
                     ctx.require(ok, "expandverif:wrong-observation", time=float(t), lead=float(lt), expected=cands, actual=g, argv=ctx.notes["argv"])
                     nplaced += 1
-    ctx.observe((via, inits, lts, tod, nplaced))
+    ctx.observe((via, inits, lts, tod, nplaced, tuple(times)))
     ctx.outcome("placed" if nplaced else "none")
     ctx.nontrivial(nplaced > 0)
 
@@ -357,9 +365,9 @@ def run(tier, only=None):
         st = explore.explore(h, mode=mode, k=k, params=params, repo_root=core.REPO, time_cap=(300 if tier == "quick" else 3000))
         bound = {"accumulate": "full {text,nc} x 6 windows x 2 axes x -i, dev(%d) over missing cells" % k,
                  "ens2prob": "full {text,nc} x 1-3 members x ordered threshold selections x ordered level selections x -p, dev(%d) over missing obs/member/fcst" % k,
-                 "expandverif": "full {text,nc} x 9 -i lists x 36 -lt lists (ascending subsets and permuted / descending ones) x 2 input init hours, dev(1) missing obs"}[name]
+                 "expandverif": "full {text,nc} x 9 -i lists x 36 -lt lists (ascending subsets and permuted / descending ones) x 2 input init hours x {ascending, descending} input time axis, dev(1) missing obs"}[name]
         subs.append(core.Sub.from_e1(name, st, bound=bound, rule="one execution = one script run, every output cell compared with the reference transformation",
-                                     required_flags=("pit-missing-obs",) if name == "ens2prob" else (), wall=time.time() - t0))
+                                     required_flags=("pit-missing-obs", "decimal-tie") if name == "ens2prob" else (), wall=time.time() - t0))
     return subs
 
 
